@@ -246,6 +246,15 @@ def t3_reexport() -> Iterator[Dict[str, Any]]:
                    mod("b", 2, pkg=True),
                    mod("m", 5, ops=flat(frm("", "util", lvl=2), frm("util", "helper", lvl=2), cls("K", body=[alias("h", "helper")]), alias("u", "util.helper"), alias("i", "util.only_inner")))],
                   "T3", idiom="package-moved-to-another-depth")
+    # ... and the moved package HOLDS a package: its module (two levels below) is analysed where it is written too
+    yield project([mod("top", pkg=True, ops=[frm("a", "b", lvl=1)], all=["b"]),
+                   mod("a", 1, pkg=True),
+                   mod("util", 2, ops=flat(fn("helper"), cls("Base"))),
+                   mod("util", 1, ops=flat(fn("helper"), fn("only_outer"))),
+                   mod("b", 2, pkg=True),
+                   mod("c", 5, pkg=True),
+                   mod("m", 6, ops=flat(frm("", "util", lvl=3), frm("util", "Base", lvl=3), cls("K", "Base"), alias("u", "util.helper")))],
+                  "T3", idiom="package-holding-a-package-moved-to-another-depth")
     # the package imports the class through a module that only forwards it; the DEFINING module lists it in its own __all__
     # (the module the name is imported FROM has none): documented where the package exports it
     yield project([mod("p", pkg=True, ops=[frm("_compat", "X", lvl=1)], all=["X"]),
